@@ -2,7 +2,7 @@ SPECIFICATION Spec
 CONSTANTS Addrs = {"A1", "A1p", "A1m"} Keys = {"K1", "K2"} Signers = {"S2"} OwnSigner = "" MaxVer = 0 Datas = {} UData = {"a"}
           Forged = FALSE Sizes = FALSE Multi = FALSE Base = 2 Scale = 1 MaxRot = 2 MaxClock = 0 InitCloser = 7 MaxCloser = 7
           MaxIssued = 2 PeerStore = TRUE Locals = FALSE EqReplaces = TRUE OtherTokens = {"foreign", "junk"} MaxStored = 8
-          KeepSecrets = 2 CleanAll = TRUE
+          KeepSecrets = 2 CleanAll = TRUE Validity = 0 RotatePeriod = 0 ExpiredYields = FALSE
 INVARIANT TypeOK
 INVARIANT StoreNeedsOwnFreshToken
 INVARIANT Limits
